@@ -214,3 +214,50 @@ pub extern "C" fn nf_r_load2() {
     idx_checked(&g, 34);
     drop(g);
 }
+
+// ------------------------------------------------------------------ C12/C13: the wrap moves the reader onto a node last used for ANOTHER container
+
+/// prologue of thread 2: first use of the crate (its node is newer than thread 1's) is a helping load of B
+#[no_mangle]
+pub extern "C" fn nf_pre_load_b() {
+    let g = b().load();
+    idx_checked(&g, 46);
+    drop(g);
+}
+/// thread 2: exits (its node - which last advertised container B - becomes free)
+#[no_mangle]
+pub extern "C" fn nf_exit_t2() {
+    thread_exit_self(2);
+}
+/// thread 1: helping load of A, then the generation wrap (the thread moves to whatever node is free - thread 2's
+/// if that has exited), then more loads of A. Nobody writes A: every load of A returns obj0.
+#[no_mangle]
+pub extern "C" fn nf_r_wrap_a() {
+    let g = a().load();
+    vassert(idx_checked(&g, 33) == 0, 47);
+    drop(g);
+    set_generation(u64::MAX - 3);
+    let g = a().load();
+    vassert(idx_checked(&g, 36) == 0, 48);
+    drop(g);
+    let g = a().load();
+    vassert(idx_checked(&g, 34) == 0, 49);
+    drop(g);
+}
+
+// ------------------------------------------------------------------ C11: two new threads want the node of an exited one
+
+#[no_mangle]
+pub extern "C" fn nf_exit_t1() {
+    thread_exit_self(1);
+}
+/// a new thread: two helping loads of A (nobody writes A)
+#[no_mangle]
+pub extern "C" fn nf_r_new_load2() {
+    let g = a().load();
+    vassert(idx_checked(&g, 33) == 0, 47);
+    drop(g);
+    let g = a().load();
+    vassert(idx_checked(&g, 34) == 0, 48);
+    drop(g);
+}
